@@ -338,7 +338,8 @@ def file_cases(draw):
     for title, _ in SECTIONS:
         secs[title] = [mnem() for _ in range(draw(st.integers(0, 6)))]
     return {"file": secs, "nrows": draw(st.integers(1, 3)), "version": draw(st.sampled_from([2.0, 2.0, 1.2])),
-            "second_cycle": draw(st.booleans())}
+            "second_cycle": draw(st.booleans()), "bare_blanks": draw(st.booleans()),
+            "wrap": draw(st.sampled_from([None, None, True, False]))}
 
 
 def parse_written(text):
@@ -406,26 +407,34 @@ def file_oracle(case):
             return False
         return True
 
+    def bare(mn):
+        # a blank mnemonic on a line whose other fields are blank too (` .  : `): still an item, still UNKNOWN
+        if mn == "" and case.get("bare_blanks"):
+            out.cls("blank-item-with-all-fields-blank")
+            return lasio.HeaderItem("", "", "", "")
+        return None
+
     for mn in secs.get("Version", []):
         serial += 1
-        if not add("Version", las.version.append, lasio.HeaderItem(mn, "", "v%d" % serial, "version item %d" % serial)):
+        if not add("Version", las.version.append, bare(mn) or lasio.HeaderItem(mn, "", "v%d" % serial, "version item %d" % serial)):
             return out
         originals["Version"].append(mn)
     for mn in secs["Well"]:
         serial += 1
-        if not add("Well", las.well.append, lasio.HeaderItem(mn, "", "w%d" % serial, "well item %d" % serial)):
+        if not add("Well", las.well.append, bare(mn) or lasio.HeaderItem(mn, "", "w%d" % serial, "well item %d" % serial)):
             return out
         originals["Well"].append(mn)
     las.append_curve("DEPT", np.arange(nrows, dtype=float) + 1.0, unit="m", descr="index")
     originals["Curves"].append("DEPT")
     for mn in secs["Curves"]:
         serial += 1
-        if not add("Curves", las.append_curve, mn, np.arange(nrows, dtype=float) + 10.0 * serial, unit="", descr="curve %d" % serial):
+        if not add("Curves", las.append_curve, mn, np.arange(nrows, dtype=float) + 10.0 * serial, unit="",
+                   descr="" if (mn == "" and case.get("bare_blanks")) else "curve %d" % serial):
             return out
         originals["Curves"].append(mn)
     for mn in secs["Parameter"]:
         serial += 1
-        if not add("Parameter", las.params.append, lasio.HeaderItem(mn, "", serial, "param %d" % serial)):
+        if not add("Parameter", las.params.append, bare(mn) or lasio.HeaderItem(mn, "", serial, "param %d" % serial)):
             return out
         originals["Parameter"].append(mn)
 
@@ -447,7 +456,11 @@ def file_oracle(case):
     version = case.get("version", 2.0)
     out.cls("file-v%s" % version)
     buf = io.StringIO()
-    r = attempt(las.write, buf, version=version)
+    wkw = {}
+    if case.get("wrap") is not None:
+        wkw["wrap"] = case["wrap"]
+        out.cls("file-wrap=%s" % case["wrap"])
+    r = attempt(las.write, buf, version=version, **wkw)
     if is_raised(r):
         out.fail("write-raised|%s" % r.bucket, "write raised %s for %r" % (r, secs))
         return out
